@@ -120,6 +120,8 @@ def constructs(doc) -> set:
             elif t == "tbl":
                 if depth_tbl:
                     out.add("tbl.nested")
+                    if any(len(row) > 1 for row in b[1]):
+                        out.add("tbl.nested.wide")      # a nested table with more than one cell in a row
                 for row in b[1]:
                     for cell in row:
                         if len(cell) > 1:
